@@ -690,7 +690,12 @@ Definition recover (P : params) (img : nstate) : recovered :=
         let from := v_lastSnapIdx s4 + 1 in   (* after the fix: commit in /repo; the pinned tree started at max(snapshot, lastApplied)+1 *)
         match scan_configs P s4 from (N.to_nat (e_idx le + 1 - from)) with
         | None => RecPanic
-        | Some s5 => RecOk s5 (ESetTerm (d_term img) true :: tr3 ++ tr4)   (* NewRaft: r.setCurrentTerm(currentTerm) writes the term back *)
+        | Some s5 =>
+          (* after the "fix:" commit (finding F13): a commit index restored from the log store that covers the latest
+             configuration entry marks that configuration committed (the leader loop never would) *)
+          let s6 := if (0 <? v_commit s5) && (v_latestIdx s5 <=? v_commit s5)
+                    then set_committed s5 (v_latest s5) (v_latestIdx s5) else s5 in
+          RecOk s6 (ESetTerm (d_term img) true :: tr3 ++ tr4)   (* NewRaft: r.setCurrentTerm(currentTerm) writes the term back *)
         end
       end
     end
